@@ -259,7 +259,51 @@ def examples(tier):
             for m in S.METRICS for f in ('cost', 'rmse')]
 
 
+@st.composite
+def all_segment_cases(draw, tier):
+    c = draw(S.curves(100, 130 if tier == 'quick' else 260, scales=False, families=['noise', 'mono_dec', 'convex', 'quant', 'trace']))
+    return {'kind': 'all-segments', 'family': c['family'], 'pts': c['pts'], 'metric': draw(st.sampled_from(S.METRICS)),
+            'function': draw(st.sampled_from(['cost', 'cost', 'rmse'])), 'order': draw(st.sampled_from(['lr', 'rl', 'len']))}
+
+
+def oracle_all_segments(case, rec):
+    """History that queries EVERY segment (l, r) of the curve through breakpoint sets [0, l, r, n-1]
+    against one shared cache: a cache key that is not injective in (l, r) shows up as a shared value
+    that differs from the fresh-cache value."""
+    L = lib.lib()
+    ev = L.evaluation
+    p = lib.pts_of(case)
+    n = len(p)
+    M = S.metric_of(case['metric'])
+    fn = case['function']
+    cache = {}
+    segs = [(l, r) for l in range(n) for r in range(l + 1, n)]
+    if case['order'] == 'rl':
+        segs.reverse()
+    elif case['order'] == 'len':
+        segs.sort(key=lambda s_: (s_[1] - s_[0], s_[0]))
+    rec.tag('all-segments:%s/%s' % (fn, case['order']))
+    for l, r in segs:
+        q = sorted({0, l, r, n - 1})
+        red = np.array(q, dtype=int)
+        if fn == 'cost':
+            a = rec.call(8, ev.compute_global_cost, p, red, M, cache, _site='evaluation.compute_global_cost')
+            b = rec.call(8, ev.compute_global_cost, p, red, M, {}, _site='evaluation.compute_global_cost')
+        else:
+            a = rec.call(8, ev.compute_global_rmse, p, red, cache, _site='evaluation.compute_global_rmse')
+            b = rec.call(8, ev.compute_global_rmse, p, red, {}, _site='evaluation.compute_global_rmse')
+        if a is FAILED or b is FAILED:
+            return
+        a, b = float(a), float(b)
+        if not (a == b or (a != a and b != b)):
+            rec.fail('cache:shared-differs-from-fresh:' + fn, 'query %r after %d queries: shared %r fresh %r' % (q, segs.index((l, r)), a, b))
+            return
+    rec.count('segment-queries', len(segs))
+    rec.nontrivial = True
+
+
 SUBS = [
+    Sub('all_segments', oracle_all_segments, strategy=all_segment_cases, budget={'quick': 32, 'thorough': 320}),
     Sub('definition', oracle_definition, strategy=def_cases, budget={'quick': 6400, 'thorough': 96000}),
     Sub('history', oracle_history, strategy=history_cases, budget={'quick': 6400, 'thorough': 96000}, examples=examples),
 ]
